@@ -1335,54 +1335,61 @@ def _scatter_512(ex, st, ins, args, m):
 # ------------------------------------------------------------------------------------------------ inline asm
 @asm_model(r'^div[ql]? ')
 def _asm_div(ex, st, ins, args, cons):
-    """div r/m: (RDX:RAX) / divisor -> RAX quotient, RDX remainder; #DE when divisor == 0 or quotient overflows"""
-    outs = [c for c in cons.split(',') if c.startswith('=')]
-    ins_ = [c for c in cons.split(',') if not c.startswith('=') and not c.startswith('~')]
-    regs = {}
-    vi = 0
-    for c in ins_:
-        regs[c] = args[vi]
-        vi += 1
-    w = ins.ty.lbits() if ins.ty.kind != 'struct' else ins.ty.fields[0].bits
-
-    def get(*names):
-        for nme in names:
-            for c, a in regs.items():
-                if nme in c:
-                    return vals(a)[0]
-        return None
-    # AVEL: "+a"(lo) "+d"(hi) "r"(divisor)  => constraints "={ax},={dx},r,0,1" / similar
-    order = [vals(a)[0] for a in args]
-    if len(order) != 3:
+    """div r/m: (RDX:RAX) / divisor -> RAX quotient, RDX remainder; #DE when divisor == 0 or the quotient overflows"""
+    parts = [c for c in cons.split(',') if not c.startswith('~')]
+    outs = [c.lstrip('=&') for c in parts if c.startswith('=')]
+    inps = [c for c in parts if not c.startswith('=')]
+    if len(inps) != len(args):
         raise NotEncodable('div asm operand shape %r' % cons)
-    ins_list = ins_
-    # inputs tied to outputs are written as digits; untied is the divisor
-    tied = {}
-    div = None
-    for c, a in zip(ins_list, order):
-        if c.isdigit():
-            tied[int(c)] = a
+
+    def reg(c):
+        c = c.strip('{}')
+        if c in ('ax', 'a', 'rax', 'eax'):
+            return 'a'
+        if c in ('dx', 'd', 'rdx', 'edx'):
+            return 'd'
+        return None
+    lo = hi = div = None
+    for c, a in zip(inps, args):
+        v = vals(a)[0]
+        r = reg(outs[int(c)]) if c.isdigit() else reg(c)
+        if r == 'a':
+            lo = v
+        elif r == 'd':
+            hi = v
         else:
-            div = a
-    outregs = [o.lstrip('=&') for o in outs]
-    lo = hi = None
-    for i, o in enumerate(outregs):
-        if 'ax' in o or o == 'a':
-            lo = tied.get(i)
-        if 'dx' in o or o == 'd':
-            hi = tied.get(i)
+            div = v
     if lo is None or hi is None or div is None:
         raise NotEncodable('div asm constraints %r' % cons)
+    w = W(args[0])
     (lov, plo), (hiv, phi), (dv, pd) = lo, hi, div
-    st.oblige('trap:divide-error', b_or(sym.eq(dv, 0, w), sym.uge(hiv, dv, w)), 'div instruction: divisor == 0 or quotient overflow')
+    st.oblige('trap:divide-error', b_or(sym.eq(dv, 0, w), sym.uge(hiv, dv, w)),
+              'div instruction raises #DE: divisor == 0 or quotient does not fit (high half >= divisor)')
     st.oblige('ub:poison-asm-operand', b_or(plo, phi, pd), 'div')
-    n, _ = sym.concat([(lov, w), (hiv, w)])
-    d2 = sym.zext(dv, w, 2 * w)
-    q = sym.trunc(sym.udiv(n, d2, 2 * w), 2 * w, w)
-    r = sym.trunc(sym.urem(n, d2, 2 * w), 2 * w, w)
+    if isinstance(lov, int) and isinstance(hiv, int) and isinstance(dv, int):
+        n = (hiv << w) | lov
+        q = (n // dv) & M(w) if dv else 0
+        r = (n % dv) if dv else 0
+    else:
+        n, _ = sym.concat([(lov, w), (hiv, w)])
+        d2 = sym.zext(dv, w, 2 * w)
+        q = sym.trunc(sym.udiv(n, d2, 2 * w), 2 * w, w)
+        r = sym.trunc(sym.urem(n, d2, 2 * w), 2 * w, w)
     res = []
-    for o in outregs:
-        res.append([(q, False)] if ('ax' in o or o == 'a') else [(r, False)])
+    for o in outs:
+        res.append([(q, False)] if reg(o) == 'a' else [(r, False)])
     if len(res) == 1:
         return res[0]
     return Agg(res)
+
+
+@asm_model(r'^add \$1, \$0 rcr \$0$')
+def _asm_add_rcr(ex, st, ins, args, cons):
+    """add b, a ; rcr a (by one): the 65-bit sum of a and b shifted right by one"""
+    if len(args) != 2:
+        raise NotEncodable('add/rcr asm operand shape %r' % cons)
+    w = W(args[0])
+    (x, px), (y, py) = vals(args[0])[0], vals(args[1])[0]
+    s = sym.add(sym.zext(x, w, w + 1), sym.zext(y, w, w + 1), w + 1)
+    r = sym.trunc(sym.lshr(s, 1, w + 1), w + 1, w)
+    return [(r, b_or(px, py))]
